@@ -95,7 +95,7 @@ def run(rep, tier):
     try:
         _run(rep, quick, wd)
     finally:
-        if not rep.violations and not os.environ.get("VERIF_KEEP"):
+        if not os.environ.get("VERIF_KEEP"):          # failing events are kept under replays/X02; the scratch (TLC logs up to 100 MB) is not
             shutil.rmtree(wd, ignore_errors=True)
 
 
@@ -192,6 +192,17 @@ def _run(rep, quick, wd):
     v = {"consumed": v["consumed"] - len(bad), "fails": [f for f in v["fails"] if f["tid"] not in expect],
          "nontrivial": [t for t in v["nontrivial"] if t not in expect], "divergences": [t for t in v["divergences"] if t not in expect],
          "info": [i for i in v["info"] if i["tid"] not in expect], "states": v.get("states", 0), "wall": v.get("wall", 0)}
+    # one replay file per failing event is kept for at most 3 events per (clause, key); the totals go to the evidence
+    by_tid = {e["tid"]: e for e in events}
+    counts, kept = {}, []
+    for f in v["fails"]:
+        ks = ["%s|%s" % (c, keyf(by_tid[f["tid"]])) for c in sorted(f["fail"])]
+        if any(counts.get(k, 0) < 3 for k in ks):
+            kept.append(f)
+        for k in ks:
+            counts[k] = counts.get(k, 0) + 1
+    rep.notes["failing_events_by_key"] = dict(sorted(counts.items(), key=lambda kv: -kv[1])[:40])
+    v["fails"] = kept
     rep.add_trace_result("behaviours", events, v, keyf=keyf)
     # ---- coverage of the sharing patterns / actions (vacuity guards)
     tags = {}
